@@ -72,6 +72,16 @@ func genURL(rng *rand.Rand, thorough bool) {
 			}
 		}
 	}
+	// lengths around powers of two and well-known limits (255, 2048, the 2083 of old browsers, 4096, 8192, 65535): the shape
+	// has no length bound
+	for _, n := range []int{254, 255, 256, 1023, 1024, 2047, 2048, 2082, 2083, 2084, 2085, 3000, 4095, 4096, 4097, 8191, 8192, 8193, 65535, 65536, 70000} {
+		for _, pre := range []string{"data:image/png;base64,", "https://example.com/search?q=", "mailto:", "file:///", "urn:"} {
+			if n > len(pre) {
+				emit(pre + rep("A", n-len(pre)))
+				emit(pre + rep("a", n-len(pre)-1) + " ")
+			}
+		}
+	}
 	seps := []string{":", ":/", "://", "", ":///", "//", ":\\\\", ":/x/", " :", ": //"}
 	tails := []string{"", "a", "example.com/path?q=1#f", "a b", "a\x00b", "a\x7f", "a\x1fb", "\xc3\xa9", "a\xff", "[::1]:80/", "/", "//"}
 	all := append([]string{}, urlSchemes...)
